@@ -99,6 +99,30 @@ Section L.
                end
         else ROk acc errs
     end.
+
+  (* tokens touched by parseWithRecovery: a call of the statement parser touches the tokens from its start to where it
+     stops (one more for the look-ahead), synchronize touches those it skips.  [resume] is where the loop continues
+     after a failure that stopped at p': the code continues at p' (or one token further when nothing was consumed);
+     [rwork] is parametric in it so that the variant that goes back into the failed statement can be stated too *)
+  Section Work.
+    Variable resume : nat -> nat -> nat.           (* statement start -> failure cursor -> position handed to synchronize *)
+    Fixpoint rwork (fuel pos : nat) : nat :=
+      match fuel with
+      | O => 0
+      | S f =>
+          if in_range pos then
+            if is_semi pos then 1 + rwork f (S pos)
+            else match ps pos with
+                 | SErr _ p' =>
+                     let p1 := resume pos p' in
+                     (p' - pos + 1) + (sync ntok p1 - p1 + 1) + rwork f (sync ntok p1)
+                 | SOk _ p' => (p' - pos + 1) + rwork f (skip_semi p')
+                 end
+          else 0
+      end.
+  End Work.
+  Definition resume_code (pos p' : nat) : nat := if p' =? pos then S pos else p'.
+  Definition resume_restart (pos p' : nat) : nat := S pos.     (* always back to one token past the statement start *)
 End L.
 
 Arguments SOk {tree}. Arguments SErr {tree}.
@@ -158,6 +182,15 @@ Definition run_recover (kinds : list nat) (tbl : list (sres nat)) : rres nat :=
   let n := length kinds in
   recover nat n (fun p => kind_at kinds p =? 1) (fun p => kind_at kinds p =? 2) (fun p => kind_at kinds p =? 3)
           (tbl_ps tbl) (S n) 0 [] [] None.
+(* tokens touched by recovery on a table-given instance, with the code's resume rule and with the restart variant *)
+Definition run_rwork (restart : bool) (kinds : list nat) (tbl : list (sres nat)) : nat :=
+  let n := length kinds in
+  rwork nat n (fun p => kind_at kinds p =? 1) (fun p => kind_at kinds p =? 2) (fun p => kind_at kinds p =? 3) (tbl_ps tbl)
+        (if restart then resume_restart else resume_code) (S n) 0.
+(* k statements "K . . ." of 4 tokens that all fail at the very end of the input (one long malformed statement with k
+   statement keywords), EOF last: kinds and table *)
+Definition chain_kinds (k : nat) : list nat := concat (repeat [3; 0; 0; 0] k) ++ [1].
+Definition chain_tbl (k : nat) : list (sres nat) := repeat (SErr 2002%N (4 * k)) (4 * k + 1).
 Definition run_sync (kinds : list nat) (p : nat) : nat :=
   let n := length kinds in
   sync n (fun p => kind_at kinds p =? 1) (fun p => kind_at kinds p =? 2) (fun p => kind_at kinds p =? 3) n p.
